@@ -241,3 +241,17 @@ func TreesUpTo(maxNodes int, f func(childCounts []int) bool) bool {
 	}
 	return true
 }
+
+// Runes enumerates every Unicode scalar value in [lo, hi] (surrogates are skipped: they have no
+// well-formed UTF-8 encoding), in ascending order.
+func Runes(lo, hi rune, f func(r rune) bool) bool {
+	for r := lo; r <= hi; r++ {
+		if r >= 0xD800 && r <= 0xDFFF {
+			continue
+		}
+		if !f(r) {
+			return false
+		}
+	}
+	return true
+}
